@@ -251,13 +251,16 @@ Definition read_char (srt : bool) (T : N -> list okv) (cur : N) (q : c03_read) :
       exists h, out = LResp h (fst (limited limit (in_range a b (T (eff_rev rv cur))))) (snd (limited limit (in_range a b (T (eff_rev rv cur)))))
   | QCount a b out => exists h, out = CResp h (N.of_nat (length (in_range a b (T cur))))
   | QStream a b rv out => stream_shape (eff_rev rv cur) out = true /\ stream_order srt (stream_kvs out) = in_range a b (T (eff_rev rv cur))
+  | QEtcd a b rv limit out =>
+      let lim := limited limit (in_range a b (T (eff_rev rv cur))) in
+      exists h, out = ERange h (fst lim) (snd lim) (N.of_nat (length (fst lim)) + (if snd lim then 1 else 0))
   end.
 
 (* the engine's answer for the range of a read is a tiling (a single partition always is: single_valid) *)
 Definition read_parts_ok (parts : partition_fn) (q : c03_read) : Prop :=
   match q with
   | QGet _ _ _ => True
-  | QList a b _ _ _ | QCount a b _ | QStream a b _ _ => bcmp a b = Lt -> valid_parts parts a b
+  | QList a b _ _ _ | QCount a b _ | QStream a b _ _ | QEtcd a b _ _ _ => bcmp a b = Lt -> valid_parts parts a b
   end.
 
 (* hypotheses the boolean check does not establish: keys and range bounds over the alphabet, 64-bit revisions *)
@@ -267,7 +270,15 @@ Definition read_alpha (q : c03_read) : Prop :=
   | QList a b _ _ _ => alpha a /\ alpha b
   | QCount a b _ => alpha a /\ alpha b
   | QStream a b _ _ => alpha a /\ alpha b
+  | QEtcd a b _ _ _ => alpha a /\ alpha b
   end.
+
+Lemma etcd_resp_eqb_eq x y : etcd_resp_eqb x y = true -> x = y.
+Proof.
+  destruct x as [| |h kvs m c], y as [| |h' kvs' m' c']; cbn; try discriminate; intros H; try reflexivity.
+  apply andb_true_iff in H as [H H4]. apply andb_true_iff in H as [H H3]. apply andb_true_iff in H as [H1 H2].
+  apply N.eqb_eq in H1, H4. apply (list_eqb_eq okv_eqb _ _ okv_eqb_eq) in H2. apply Bool.eqb_prop in H3. congruence.
+Qed.
 
 Lemma get_resp_eqb_eq x y : get_resp_eqb x y = true -> x = y.
 Proof.
@@ -313,11 +324,32 @@ Section Phase.
     unfold range. replace (0 <? limit + 1)%Z with true by lia. reflexivity.
   Qed.
 
+  (* Backend.List on the dump, with or without limit, under any valid partitioning *)
+  Lemma phase_list a b rv (limit : Z) : alpha a -> alpha b -> (bcmp a b = Lt -> valid_parts parts a b) ->
+    bltb a b && (eff_rev rv cur <=? cur) && (F <=? eff_rev rv cur) && (0 <=? limit)%Z && (limit <? max_i64)%Z = true ->
+    let lim := limited limit (in_range a b (T (eff_rev rv cur))) in
+    list_model d (lookup ck d) parts cur a b rv limit = LResp cur (fst lim) (snd lim).
+  Proof.
+    intros Aa Ab PK SC. cbn zeta. destruct phase_dump_wf as [DW WF].
+    apply andb_true_iff in SC as [SC S5]. apply andb_true_iff in SC as [SC S4]. apply andb_true_iff in SC as [SC S3].
+    apply andb_true_iff in SC as [S1 S2]. apply bltb_spec in S1.
+    assert (FL : floor_check (lookup ck d) (if rv =? 0 then cur else rv) = FOk) by (apply (floor_rec_check ck d F); [exact FR|exact HF|unfold eff_rev in S3; lia]).
+    destruct (0 <? limit)%Z eqn:EL.
+    + rewrite (list_model_limit_parts d _ a b rv limit ltac:(lia)).
+      rewrite (list_model_dump d _ cur a b rv limit DW Aa Ab). fold V.
+      rewrite (list_model_single V _ cur a b rv limit WF Aa Ab S1 FL ltac:(lia)). cbn zeta. rewrite EL.
+      fold (eff_rev rv cur). rewrite (phase_snapshot (eff_rev rv cur)) by lia.
+      unfold limited. rewrite EL. reflexivity.
+    + assert (limit = 0%Z) by lia. subst limit.
+      destruct (c13_group_list_sound d _ parts cur a b DW Aa Ab S1 (PK S1) rv FL) as [_ L2]. fold V in L2.
+      rewrite L2. change (eff rv cur) with (eff_rev rv cur). rewrite (phase_snapshot (eff_rev rv cur)) by lia. reflexivity.
+  Qed.
+
   Theorem read_char_of_check q : read_alpha q -> read_parts_ok parts q -> in_scope compat hv cur F q = true ->
     read_check ck compat parts ph q = true -> read_char srt T cur q.
   Proof.
     intros RA PK SC CK. destruct phase_dump_wf as [DW WF].
-    destruct q as [k rv out|a b rv limit out|a b out|a b rv out]; cbn [read_alpha read_parts_ok in_scope read_check read_char] in *.
+    destruct q as [k rv out|a b rv limit out|a b out|a b rv out|a b rv limit out]; cbn [read_alpha read_parts_ok in_scope read_check read_char] in *.
     - destruct RA as [Ak Hr]. apply get_resp_eqb_eq in CK. fold d cur in CK.
       rewrite (get_model_dump d cur k rv DW) in CK. fold V in CK. rewrite (get_model_single V cur k rv WF Ak Hr) in CK.
       apply andb_true_iff in SC as [SC S3]. apply andb_true_iff in SC as [S1 S2].
@@ -329,19 +361,7 @@ Section Phase.
         - apply phase_snapshot. lia. }
       rewrite E in CK. destruct (find_key k (T (eff_rev rv cur))) as [[v r]|]; eexists; symmetry; exact CK.
     - destruct RA as [Aa Ab]. apply list_resp_eqb_eq in CK. fold d cur in CK.
-      apply andb_true_iff in SC as [SC S5]. apply andb_true_iff in SC as [SC S4]. apply andb_true_iff in SC as [SC S3].
-      apply andb_true_iff in SC as [S1 S2]. apply bltb_spec in S1.
-      assert (FL : floor_check (lookup ck d) (if rv =? 0 then cur else rv) = FOk) by (apply (floor_rec_check ck d F); [exact FR|exact HF|unfold eff_rev in S3; lia]).
-      destruct (0 <? limit)%Z eqn:EL.
-      + rewrite (list_model_limit_parts d _ a b rv limit ltac:(lia)) in CK.
-        rewrite (list_model_dump d _ cur a b rv limit DW Aa Ab) in CK. fold V in CK.
-        rewrite (list_model_single V _ cur a b rv limit WF Aa Ab S1 FL ltac:(lia)) in CK. cbn zeta in CK. rewrite EL in CK.
-        fold (eff_rev rv cur) in CK. rewrite (phase_snapshot (eff_rev rv cur)) in CK by lia.
-        exists cur. rewrite <- CK. unfold limited. rewrite EL. reflexivity.
-      + assert (limit = 0%Z) by lia. subst limit.
-        destruct (c13_group_list_sound d _ parts cur a b DW Aa Ab S1 (PK S1) rv FL) as [_ L2]. fold V in L2.
-        rewrite L2 in CK. change (eff rv cur) with (eff_rev rv cur) in CK. rewrite (phase_snapshot (eff_rev rv cur)) in CK by lia.
-        exists cur. rewrite <- CK. reflexivity.
+      rewrite (phase_list a b rv limit Aa Ab PK SC) in CK. exists cur. symmetry. exact CK.
     - destruct RA as [Aa Ab]. apply count_resp_eqb_eq in CK. fold d cur in CK.
       apply andb_true_iff in SC as [SC S3]. apply andb_true_iff in SC as [S1 S2]. subst compat. apply bltb_spec in S2.
       assert (FL : floor_check (lookup ck d) cur = FOk) by (apply (floor_rec_check ck d F); [exact FR|exact HF|lia]).
@@ -358,18 +378,22 @@ Section Phase.
       + rewrite (SP eq_refl) in CK.
         destruct (stream_single_dump d _ cur a b rv out DW Aa Ab S1 FL CK) as [SH KV]. fold V in KV.
         change (eff rv cur) with (eff_rev rv cur) in *. rewrite (phase_snapshot (eff_rev rv cur)) in KV by lia. split; assumption.
+    - destruct RA as [Aa Ab]. apply etcd_resp_eqb_eq in CK. fold d cur in CK.
+      rewrite (phase_list a b rv limit Aa Ab PK SC) in CK. cbn [etcd_shape] in CK. exists cur. symmetry. exact CK.
   Qed.
 End Phase.
 
 (* a characterised response meets the specification it was characterised with *)
 Lemma char_meets srt (hv' : list vreco) cur q : read_char srt (snapshot_spec hv') cur q -> read_meets srt in_range hv' cur q = true.
 Proof.
-  destruct q as [k rv out|a b rv limit out|a b out|a b rv out]; cbn [read_char read_meets].
+  destruct q as [k rv out|a b rv limit out|a b out|a b rv out|a b rv limit out]; cbn [read_char read_meets].
   - intros (h & ->). apply vn_opt_refl.
   - intros (h & ->). destruct (limited limit (in_range a b (snapshot_spec hv' (eff_rev rv cur)))) as [ek em]. cbn [fst snd].
     rewrite (list_eqb_refl okv_eqb _ okv_eqb_refl), Bool.eqb_reflx. reflexivity.
   - intros (h & ->). apply N.eqb_refl.
   - intros [SH ->]. rewrite SH, (list_eqb_refl okv_eqb _ okv_eqb_refl). reflexivity.
+  - cbn zeta. intros (h & ->). destruct (limited limit (in_range a b (snapshot_spec hv' (eff_rev rv cur)))) as [ek em]. cbn [fst snd].
+    rewrite (list_eqb_refl okv_eqb _ okv_eqb_refl), Bool.eqb_reflx, N.eqb_refl. reflexivity.
 Qed.
 
 Lemma read_verdict_of_meets srt hv compat cur floor q : read_meets srt in_range (marker_as_deletion hv) cur q = true ->
@@ -425,7 +449,7 @@ Section Stable.
     destruct ((0 <? read_rev q1) && in_scope compat hv1 cur1 0 q1 && in_scope compat hv2 cur2 F2 q2) eqn:G; [|reflexivity].
     cbn [negb orb]. apply andb_true_iff in G as [G S2]. apply andb_true_iff in G as [P1 S1]. apply N.ltb_lt in P1.
     specialize (C2 S2).
-    destruct q1 as [k r o1|a b r l o1|a b o1|a b r o1]; destruct q2 as [k' r' o2|a' b' r' l' o2|a' b' o2|a' b' r' o2];
+    destruct q1 as [k r o1|a b r l o1|a b o1|a b r o1|a b r l o1]; destruct q2 as [k' r' o2|a' b' r' l' o2|a' b' o2|a' b' r' o2|a' b' r' l' o2];
       cbn [read_rev] in P1; try reflexivity; try (destruct o1; reflexivity).
     - (* Get / Get *)
       destruct C2 as (h2 & ->). destruct o1 as [|h1 kv1]; [reflexivity|]. cbn [same_answer].
